@@ -4,3 +4,4 @@ pub mod s4drive;
 pub mod codecs;
 pub mod s3;
 pub mod s2;
+pub mod s5;
